@@ -67,6 +67,7 @@ func C02(r *core.Run) {
 	rule012(r)
 	rule107(r)
 	rule027(r)
+	rule028(r)
 }
 
 // handler exceptions for R02.1, one reason each
@@ -509,6 +510,7 @@ func rule027(r *core.Run) {
 		// a pruning site: Fs.Remove of a path derived from path.Dir(...) of the key, under an emptiness fact
 		reach := reachableFrom(r, []*ssa.Function{fn})
 		pruned := false
+		nPrune := 0
 		var pruneFn *ssa.Function
 		for f := range reach {
 			for _, c := range r.P.CallsIn(f, false, core.NameIs("invoke:github.com/spf13/afero.Fs.Remove", "invoke:github.com/spf13/afero.Fs.RemoveAll")) {
@@ -522,7 +524,10 @@ func rule027(r *core.Run) {
 				if strings.HasSuffix(r.P.CalleeName(c), "RemoveAll") {
 					continue // recursive removal of a parent would delete sibling keys
 				}
-				// emptiness guard: a fact on len(ReadDir result) at the call
+				// emptiness guard: a fact on len(ReadDir result) at the call — of the very
+				// directory that is removed (same path value, not merely some directory)
+				thisTested := false
+				rmPath := stripPathConv(r, c.Common().Args[0])
 				for _, g := range core.GuardsOf(c.(ssa.Instruction)) {
 					gs := r.P.SliceOf(g.If.Cond, core.SliceOpts{Depth: -1})
 					if gs.Has("call:builtin:len") && (gs.Has("call:github.com/spf13/afero.ReadDir") || gs.Has("call:invoke:github.com/spf13/afero.File.Readdir") || gs.Has("call:invoke:github.com/spf13/afero.File.Readdirnames")) {
@@ -533,12 +538,28 @@ func rule027(r *core.Run) {
 						}
 						k, isK := core.ConstInt(cd.Y)
 						emptyArm := isK && k == 0 && ((cd.Op == token.GTR && !truth) || (cd.Op == token.EQL && truth) || (cd.Op == token.NEQ && !truth) || (cd.Op == token.LEQ && truth))
-						if emptyArm {
+						if !emptyArm {
+							continue
+						}
+						same := false
+						for rc := range gs.Calls {
+							if r.P.CalleeName(rc) == "github.com/spf13/afero.ReadDir" && len(rc.Common().Args) == 2 && stripPathConv(r, rc.Common().Args[1]) == rmPath {
+								same = true
+							}
+							if strings.HasSuffix(r.P.CalleeName(rc), "afero.Fs.Open") && len(rc.Common().Args) == 1 && stripPathConv(r, rc.Common().Args[0]) == rmPath {
+								same = true
+							}
+						}
+						if same {
 							pruned = true
 							pruneFn = f
+							thisTested = true
 						}
 					}
 				}
+				nPrune++
+				r.Check(thisTested, "R02.7", key(name, "removed directory was tested empty", fname(r, f), sprintf("#%d", nPrune)), pos(r, c.(ssa.Instruction)),
+					"Remove(dir) under len(ReadDir(dir)) == 0 for that same dir", "a parent directory is removed without an emptiness test of that very directory (Remove is not a reliable emptiness test on every afero filesystem): keys under a sibling directory can disappear with it")
 			}
 		}
 		r.Check(pruned, "R02.7", key(name, "prunes empty parent directories"), pos(r, objRemove.(ssa.Instruction)),
@@ -566,4 +587,45 @@ func rule027(r *core.Run) {
 		}
 	}
 	r.Floor("R02.7", 2, "fs delete paths")
+}
+
+// stripPathConv peels separator conversions (filepath.FromSlash/ToSlash) off a path value.
+func stripPathConv(r *core.Run, v ssa.Value) ssa.Value {
+	for i := 0; i < 4; i++ {
+		c, ok := v.(*ssa.Call)
+		if !ok {
+			return v
+		}
+		switch r.P.CalleeName(c) {
+		case "path/filepath.FromSlash", "path/filepath.ToSlash":
+			v = c.Call.Args[0]
+		default:
+			return v
+		}
+	}
+	return v
+}
+
+// rule028 — the existence check (which creates the bucket when auto-bucket is on) is applied to the addressed bucket only.
+func rule028(r *core.Run) {
+	r.Rule("R02.8", "g.ensureBucketExists — which creates the bucket when the auto-bucket option is on — is called only with the bucket the request addresses (the handler's own bucket parameter), never with a name taken from a header or body (e.g. a copy source): reading from a bucket must not create it")
+	eb := mustFunc(r, "gofakes3.(*GoFakeS3).ensureBucketExists")
+	if eb == nil {
+		return
+	}
+	n := 0
+	for _, c := range r.P.StaticCallers(eb) {
+		n++
+		f := c.Parent()
+		a := core.Forward(c.Common().Args[1])
+		_, isParam := a.(*ssa.Parameter)
+		if fv, ok := a.(*ssa.FreeVar); ok {
+			// a closure of a handler using the handler's parameter
+			_ = fv
+			isParam = true
+		}
+		r.Check(isParam, "R02.8", key(fname(r, f), "existence check on the addressed bucket", sprintf("#%d", n)), pos(r, c.(ssa.Instruction)), "argument is the handler's bucket parameter",
+			"ensureBucketExists is applied to a bucket name that is not the handler's own bucket parameter (a value parsed from the request): with auto-bucket on, merely naming a bucket as a source creates it")
+	}
+	r.Floor("R02.8", 10, "ensureBucketExists call sites")
 }
